@@ -869,6 +869,8 @@ package zygo
 
 // every successful set on a typed record stores a declared field; a rejected set changes nothing (C14 contract)
 //@ func (*SexpHash).HashSet
+//@ C17 assert checks-what-it-stores @before call TypeCheckField[0]: arg0 == hash && arg1 == nkey(entry(key)) && arg2 == entry(val)
+//@ C17 assert stores-what-it-checked @before call Cons[*]: arg0 == nkey(entry(key)) && arg1 == entry(val)
 //@ C17 ensures only-declared: r0 == nil && typedRecord(hash) ==> declaredField(hash, old(nkey(key)))
 
 // the write funnel: the bucket map and the key-order list of a hash are written only here
